@@ -1884,6 +1884,10 @@ impl JsObject {
                 // materialise the gap is kept as an ordinary property instead
                 if idx < MAX_DENSE_ARRAY_LENGTH {
                     if idx >= elements.len() {
+                        // A new element is a new property
+                        if !self.extensible || self.sealed {
+                            return;
+                        }
                         elements.resize(idx + 1, JsValue::Undefined);
                     }
                     // Safe: we just resized to ensure idx is in bounds
@@ -1899,7 +1903,11 @@ impl JsObject {
             {
                 if let JsValue::Number(n) = value {
                     let new_len = n as usize;
-                    if new_len <= MAX_DENSE_ARRAY_LENGTH {
+                    // The elements of a sealed array cannot be deleted, and one that is not
+                    // extensible does not grow
+                    let refused = (new_len < elements.len() && self.sealed)
+                        || (new_len > elements.len() && (!self.extensible || self.sealed));
+                    if new_len <= MAX_DENSE_ARRAY_LENGTH && !refused {
                         elements.resize(new_len, JsValue::Undefined);
                     }
                 }
@@ -1961,6 +1969,15 @@ impl JsObject {
     // ═══════════════════════════════════════════════════════════════════════════
     // Array-specific methods for efficient element access
     // ═══════════════════════════════════════════════════════════════════════════
+
+    /// Integrity level of an array, as far as the element-moving array methods care: a frozen
+    /// array takes no write at all, a sealed one cannot lose elements, and one that is not
+    /// extensible cannot gain any
+    pub fn array_rejects(&self, writes: bool, grows: bool, shrinks: bool) -> bool {
+        (self.frozen && (writes || grows || shrinks))
+            || (grows && (!self.extensible || self.sealed))
+            || (shrinks && self.sealed)
+    }
 
     /// Get array length if this is an array, None otherwise
     #[inline]
